@@ -473,3 +473,134 @@ pub fn c18(a: &Analysis, v: &mut Verdict) {
     let advanced = a.case.ops.iter().any(|r| matches!(r.op, Op::Advance { .. }));
     v.trigger = advanced && checked > 0 && a.hist.out.cycles >= 2;
 }
+
+// ---------------------------------------------------------------------------------------------
+// C13 / C14: future, stream and sink adapters
+
+pub fn c13(a: &Analysis, v: &mut Verdict, prop: &str) {
+    let m = a.model;
+    // (a) the adapter's span is the local parent inside every call and the previous context is
+    // back afterwards: every context probe (inside poll bodies and between polls) equals the model
+    crate::oracle2::check_ctx_returns_pub(a, v, prop);
+    crate::oracle2::no_spurious_pub(a, v, prop);
+    // (b) what the last call recorded belongs to the delivered trace: presence (default config:
+    // by the next flush; cancelable: in the root's report call), attachments included
+    crate::oracle2::presence_pub(a, v, prop, &format!("{}.trace", prop));
+    crate::oracle2::c03_core(a, v, prop, true);
+    crate::oracle2::check_attachments(a, v, prop, &format!("{}.attach", prop), true, &|_| true);
+    // (c) the span finishes exactly when the task completes or is dropped
+    let mut task_spans = 0u64;
+    for (ei, er) in m.recs.iter().enumerate() {
+        let eo = outer(er.end_op);
+        let is_task_end = matches!(a.case.ops.get(eo).map(|r| &r.op), Some(Op::Poll { .. }) | Some(Op::DropTask { .. }));
+        if er.local || !is_task_end {
+            continue;
+        }
+        task_spans += 1;
+        let br = reads_of_op(a, outer(er.begin_op));
+        let erd = reads_of_op(a, eo);
+        for &di in &a.matched[ei] {
+            let r = a.rec(&a.delivered[di]);
+            if !br.iter().any(|s| erd.iter().any(|f| *f >= *s && f - s == r.dur)) {
+                v.add(
+                    prop,
+                    &format!("{}.finish", prop),
+                    "span-not-finished-at-completion".into(),
+                    format!(
+                        "span n{} bound to a task has duration {} ns, which does not end inside the call that completed or dropped the task (op #{})",
+                        er.node, r.dur, eo
+                    ),
+                );
+            }
+        }
+    }
+    // a completed task whose span is kept alive must still deliver the span by the next flush:
+    // covered by presence (the model finishes the span at the completing call)
+    // (d) enter_on_poll: exactly one local span per poll
+    for &pn in &m.poll_nodes {
+        let exps: Vec<usize> = m.recs.iter().enumerate().filter(|(_, r)| r.node == pn).map(|(i, _)| i).collect();
+        let flushes: Vec<usize> = a
+            .case
+            .ops
+            .iter()
+            .enumerate()
+            .filter(|(f, r)| matches!(r.op, Op::Flush) && a.op_executed(*f))
+            .map(|(f, _)| f)
+            .collect();
+        if let Some(&f) = flushes.last() {
+            let due = exps.iter().filter(|&&i| crate::oracle2::expect_delivered_by(a, i, f)).count();
+            let got_by: usize = exps
+                .iter()
+                .map(|&i| a.matched[i].iter().filter(|&&d| a.hist.batches[a.delivered[d].batch].step <= a.hist.ops[f].end_step).count())
+                .sum();
+            let inverted = exps.iter().any(|&i| a.inversion(m.recs[i].collect).0);
+            if got_by < due && !inverted {
+                v.add(
+                    prop,
+                    &format!("{}.per-poll", prop),
+                    "fewer-spans-than-polls".into(),
+                    format!("enter_on_poll adapter n{}: {} polls under a sampled local parent must each have delivered one span by flush #{}, {} arrived", pn, due, f, got_by),
+                );
+            }
+        }
+        // more than expected is caught by no_spurious (duplicates)
+    }
+    // the per-poll span covers everything recorded in that poll
+    for d in &a.delivered {
+        let e = match d.exp {
+            Some(e) => e,
+            None => continue,
+        };
+        let er = &m.recs[e];
+        if let PRef::Node(p) = er.parent {
+            if m.poll_nodes.contains(&p) && er.local {
+                let r = a.rec(d);
+                if let Some(pr) = a.hist.batches[d.batch].recs.iter().find(|x| x.span_id == r.parent_id && x.trace_id == r.trace_id) {
+                    if r.begin < pr.begin || r.begin + r.dur > pr.begin + pr.dur {
+                        v.add(
+                            prop,
+                            &format!("{}.per-poll", prop),
+                            "poll-span-does-not-cover".into(),
+                            format!("local span n{} recorded during a poll is not inside that poll's enter_on_poll span", er.node),
+                        );
+                    }
+                }
+            }
+        }
+    }
+    // probes / trigger
+    let mut migrated = 0u64;
+    let mut by_task: HashMap<Slot, Vec<u8>> = HashMap::new();
+    for r in &a.case.ops {
+        if let Op::Poll { task, .. } = r.op {
+            let l = by_task.entry(task).or_default();
+            if !l.contains(&r.t) {
+                l.push(r.t);
+            }
+        }
+    }
+    for (_, l) in &by_task {
+        if l.len() > 1 {
+            migrated += 1;
+        }
+    }
+    // a cycle ran between the first and the last command of a completing call
+    let mut cycle_inside_final = 0u64;
+    for fp in &m.final_polls {
+        let o = outer(*fp);
+        if !a.op_executed(o) {
+            continue;
+        }
+        let (s, e) = (a.hist.ops[o].start_step, a.hist.ops[o].end_step);
+        if a.cycles.iter().any(|c| c.begin_step > s && c.end_step < e) {
+            cycle_inside_final += 1;
+        }
+    }
+    v.probe("poll_migrated_thread", migrated);
+    v.probe("cycle_inside_final_call", cycle_inside_final);
+    v.probe("task_spans_delivered", task_spans);
+    v.probe("final_calls", m.final_polls.len() as u64);
+    let dropped_before = a.case.ops.iter().filter(|r| matches!(r.op, Op::DropTask { .. })).count() as u64;
+    v.probe("task_dropped", dropped_before);
+    v.trigger = cycle_inside_final > 0 || migrated > 0;
+}
